@@ -90,6 +90,9 @@ p = "jaxtyping/_decorator.py"; s = open(p).read()
 a = s.index("def _get_problem_arg("); b = s.index("def _remove_typing")
 body = s[a:b].replace("new_parameters", "rebuilt").replace("keep_name", "kept").replace("keep_annotation", "kept_ann").replace("sentinel", "missing").replace("p_name", "pname")
 open(p, "w").write(s[:a] + body + s[b:])
+sub("jaxtyping/_import_hook.py", "                + f\"  import {typechecker.split('.', 1)[0]}\\n\"\n", "                + f\"  import {top}\\n\"\n")
+sub("jaxtyping/_import_hook.py", "            string_to_eval = (\n", "            top = typechecker.split(\".\", 1)[0]\n            string_to_eval = (\n")
+sub("jaxtyping/_config.py", "class _JaxtypingConfig:", "class _JaxtypingConfig(object):")
 p = "jaxtyping/_storage.py"; s = open(p).read()
 a = s.index("def shape_str("); b = s.index("def print_bindings")
 body = s[a:b].replace("pieces", "out_lines").replace("for name, size in", "for axis, n in").replace("name: size", "axis: n").replace('f"{name}={size}"', 'f"{axis}={n}"')
